@@ -301,6 +301,13 @@ class NdContract(Contract):
                         eng.oblige(st, "broadcast_equal_dims", Or(same_dim(x, y) if is_z3(same_dim(x, y)) else BoolVal(same_dim(x, y)),
                                                                   lift(x) == 1, lift(y) == 1), "shape", node)
                     shape = a.shape
+                elif len(a.shape) == 1 and len(b.shape) == 2 and b.shape[1] == 1 and a.cell and b.cell:
+                    # numpy broadcasting of a vector (m,) with a column (r,1): an (r, m) matrix, NOT an element-wise product of two vectors
+                    return Nd(f"({a.name}{op}{b.name})", (b.shape[0], a.shape[0]), "ndarray", "ERASED", binop=(op, a, b),
+                              cell=lambda i, j: _arith(op, a.cell(j), b.cell(i, IntVal(0))))
+                elif len(a.shape) == 2 and len(b.shape) == 1 and a.shape[1] == 1 and a.cell and b.cell:
+                    return Nd(f"({a.name}{op}{b.name})", (a.shape[0], b.shape[0]), "ndarray", "ERASED", binop=(op, a, b),
+                              cell=lambda i, j: _arith(op, a.cell(i, IntVal(0)), b.cell(j)))
                 elif len(a.shape) == 2 and len(b.shape) == 1:
                     eng.oblige(st, "broadcast_row_vector", same_dim(a.shape[1], b.shape[0]), "shape", node)
                     shape = a.shape
